@@ -616,7 +616,7 @@ func (b Browse) ServeArchive(w http.ResponseWriter, r *http.Request, dirPath str
 
 		// hidden files (such as the Casketfile) are neither listed nor
 		// served, so they do not belong in an archive either
-		if bc.Fs.IsHidden(info) {
+		if bc.Fs.IsHidden(info) || hiddenByPath(bc.Fs.Hide, path) {
 			if info.IsDir() {
 				return filepath.SkipDir
 			}
@@ -662,6 +662,29 @@ func (b Browse) ServeArchive(w http.ResponseWriter, r *http.Request, dirPath str
 
 	// Returning 0 indicates we intend to stream the file
 	return 0, nil
+}
+
+// hiddenByPath reports whether p is an entry of the hide list or lies below
+// one, comparing names the way request paths are matched (letter case is
+// ignored unless configured otherwise). IsHidden finds a hidden path only
+// under the spelling it has on disk, while e.g. 'internal /Private' refuses
+// requests for "/private" too; its files must not turn up in an archive of
+// the parent directory either.
+func hiddenByPath(hide []string, p string) bool {
+	p = path.Clean("/" + filepath.ToSlash(p))
+	if !httpserver.CaseSensitivePath {
+		p = strings.ToLower(p)
+	}
+	for _, h := range hide {
+		h = path.Clean("/" + h)
+		if !httpserver.CaseSensitivePath {
+			h = strings.ToLower(h)
+		}
+		if h != "/" && (p == h || strings.HasPrefix(p, h+"/")) {
+			return true
+		}
+	}
+	return false
 }
 
 func (a ArchiveType) GetWriter() archiver.Writer {
